@@ -435,6 +435,7 @@ type LoopSpec struct {
 }
 
 type Contract struct {
+	Pkg      string // package path of the file the contract was written in (name resolution context)
 	Key      string // normalised function key
 	Kind     string // func | iface | extern
 	Params   []string // optional explicit parameter names (for iface/extern)
@@ -463,8 +464,9 @@ type SpecFunc struct {
 }
 
 type GhostVar struct {
-	Name string
-	Type string // map[K]V | set[K] | sort
+	Name    string
+	Type    string // map[K]V | set[K] | sort
+	Scratch bool   // bookkeeping local to one function (e.g. the pending write batch): exempt from callers' frame obligations
 }
 
 type Lemma struct {
@@ -515,6 +517,11 @@ func splitLabel(s string) (string, string) {
 
 // ParseSpecText parses the directive lines (already stripped of the "//@" prefix).
 func (db *SpecDB) ParseSpecText(lines []string, srcs []string) error {
+	return db.ParseSpecTextIn(lines, srcs, "")
+}
+
+// ParseSpecTextIn parses directive lines written in the contract file of package pkg.
+func (db *SpecDB) ParseSpecTextIn(lines []string, srcs []string, pkg string) error {
 	var cur *Contract
 	var curLoop *LoopSpec
 	var curLemma *Lemma
@@ -570,7 +577,7 @@ func (db *SpecDB) ParseSpecText(lines []string, srcs []string) error {
 					}
 				}
 			}
-			cur = &Contract{Key: key, Kind: word, Params: params, Loops: map[int]*LoopSpec{}, Flags: map[string]bool{}, Src: l.src}
+			cur = &Contract{Pkg: pkg, Key: key, Kind: word, Params: params, Loops: map[int]*LoopSpec{}, Flags: map[string]bool{}, Src: l.src}
 			if old, dup := db.Contracts[key]; dup {
 				return fmt.Errorf("%s: duplicate contract for %s (first at %s)", l.src, key, old.Src)
 			}
@@ -717,6 +724,10 @@ func (db *SpecDB) ParseSpecText(lines []string, srcs []string) error {
 				return fmt.Errorf("%s: ghost name : type", l.src)
 			}
 			g := &GhostVar{Name: strings.TrimSpace(parts[0]), Type: strings.TrimSpace(parts[1])}
+			if strings.HasPrefix(g.Name, "scratch ") {
+				g.Scratch = true
+				g.Name = strings.TrimSpace(g.Name[len("scratch "):])
+			}
 			db.Ghosts[g.Name] = g
 			db.GhostOrd = append(db.GhostOrd, g.Name)
 		case "const":
